@@ -133,7 +133,9 @@ class C18(Profile):
                     op['rfilters'] = rng.choice([
                         [['type', '=', t1]], [['type', '!=', t1]], [['type', 'in', [t1, t2]]], [['type', '!=', t1], ['type', '!=', t2]],
                         [['id', '!=', SW.eid(tgt)]], [['created_by_ref', '=', SW.eid(pool[0])]],
-                        [['type', '=', t1], ['labels', 'contains', 'v0']], [['labels', 'in', ['v1', 'v2']]]])
+                        [['type', '=', t1], ['labels', 'contains', 'v0']], [['labels', 'in', ['v1', 'v2']]],
+                        # a property some objects carry as an EMPTY string: present, equal to '', different from anything else
+                        [['description', '!=', 'deprecated']], [['description', '=', '']], [['description', '!=', '']]])
             if kind == 'query':
                 op['qtype'] = pool[rng.randrange(len(pool))]['type']
             if rng.random() < 0.25 and kind in ('get', 'all_versions', 'query'):
